@@ -119,6 +119,8 @@ fn fixed() -> Vec<(Vec<Node>, Vec<(String, PSrc)>, RVal)> {
         txt("<"),
         Node::Out(v("it"), vec![]),
         Node::Out(Expr::Var(Path::name("forloop").dot("index")), vec![]),
+        // the caller's loop is not this partial's parent loop
+        Node::If { arms: vec![(Cond::atom(Atom::Truthy(Expr::Var(Path::name("forloop").dot("parentloop")))), vec![txt("PARENT-LEAK")])], else_: None },
         Node::If { arms: vec![(Cond::atom(Atom::Cmp(v("it"), Op::Eq, v("stop"))), vec![Node::Break])], else_: None },
         Node::If { arms: vec![(Cond::atom(Atom::Cmp(v("it"), Op::Eq, v("skip"))), vec![Node::Continue])], else_: None },
         txt(">"),
